@@ -22,6 +22,11 @@ _TREETYPES = [("MCQueryGen_treetypesvec.cfg", None, {"md10": True, "cap": {"quic
 _LETROWS = [("MCQueryGen_letrows.cfg", None, {"cap": {"quick": 320, "thorough": 320}})]
 
 
+def _ALL(t, n):
+    "random deep derivations over the union of the features (simulation, the run's seed)"
+    return [("MCQueryGen_all.cfg", {"num": 2500 if t == "quick" else 20000}, {"fnmd": True, "cap": {"quick": n, "thorough": 10 * n}})]
+
+
 def _NONNULL(cfg):
     "the CMS-only isNonnull(ref) guard profile, on both CMS backends"
     return [(cfg, None, {"backend": b, "md10": True, "cap": {"quick": 120, "thorough": 1400}}) for b in ("cms_aod", "cms_miniaod")]
@@ -42,19 +47,19 @@ SPECS = {
         clauses=["Accepts", "RowsMatch", "SpuriousFault", "Compiles", "BookingFault"],
         profiles={"quick": [("MCQueryGen_core.cfg", None), ("MCQueryGen_tuples.cfg", None),
                             ("MCQueryGen_let.cfg", None, {"cap": {"quick": 260, "thorough": 3000}}),
-                            ("MCQueryGen_moments.cfg", None, {"backend": "atlas", "cap": {"quick": 160, "thorough": 2000}})] + _ROWS("quick") + _IFFIRST("quick") + _LETROWS,
+                            ("MCQueryGen_moments.cfg", None, {"backend": "atlas", "cap": {"quick": 160, "thorough": 2000}})] + _ROWS("quick") + _IFFIRST("quick") + _LETROWS + _ALL("quick", 300),
                   "thorough": [("MCQueryGen_core_t.cfg", None), ("MCQueryGen_tuples_t.cfg", None), ("MCQueryGen_fault.cfg", None),
                                ("MCQueryGen_let_t.cfg", None, {"cap": {"quick": 260, "thorough": 3000}}),
-                               ("MCQueryGen_moments_t.cfg", None, {"backend": "atlas", "cap": {"quick": 160, "thorough": 2000}})] + _ROWS("thorough") + _IFFIRST("thorough") + _LETROWS},
-        cap={"quick": 2500, "thorough": 24500},
+                               ("MCQueryGen_moments_t.cfg", None, {"backend": "atlas", "cap": {"quick": 160, "thorough": 2000}})] + _ROWS("thorough") + _IFFIRST("thorough") + _LETROWS + _ALL("thorough", 300)},
+        cap={"quick": 2800, "thorough": 27500},
     ),
     "C02": pcheck.PSpec(
         "C02",
         clauses=["PackageComplete", "NoResidualDirective", "Compiles", "BookingFault", "OneTree"],
         profiles={"quick": [("MCQueryGen_core.cfg", None), ("MCQueryGen_schema.cfg", None), ("MCQueryGen_fault.cfg", None)] + _ROWS("quick")
-                           + [("MCQueryGen_userfn_e.cfg", None, {"fnmd": True, "cap": {"quick": 200, "thorough": 1500}})],
+                           + [("MCQueryGen_userfn_e.cfg", None, {"fnmd": True, "cap": {"quick": 200, "thorough": 1500}})] + _ALL("quick", 200),
                   "thorough": [("MCQueryGen_core_t.cfg", None), ("MCQueryGen_schema_t.cfg", None), ("MCQueryGen_fault_t.cfg", None)] + _ROWS("thorough")
-                              + [("MCQueryGen_userfn_et.cfg", None, {"fnmd": True, "cap": {"quick": 200, "thorough": 1500}})]},
+                              + [("MCQueryGen_userfn_et.cfg", None, {"fnmd": True, "cap": {"quick": 200, "thorough": 1500}})] + _ALL("thorough", 200)},
         events={"quick": 3, "thorough": 3},
         cap={"quick": 1900, "thorough": 19000},
         nontrivial="translated",
@@ -70,8 +75,8 @@ SPECS = {
     "C04": pcheck.PSpec(
         "C04",
         clauses=["FaultMissed", "SpuriousFault", "RowsMatch", "Accepts", "Compiles", "BookingFault"],
-        profiles={"quick": [("MCQueryGen_fault.cfg", None), ("MCQueryGen_guard.cfg", None)] + _NONNULL("MCQueryGen_nonnull.cfg") + _IFFIRST("quick"),
-                  "thorough": [("MCQueryGen_fault_t.cfg", None), ("MCQueryGen_guard_t.cfg", None)] + _NONNULL("MCQueryGen_nonnull_t.cfg") + _IFFIRST("thorough")},
+        profiles={"quick": [("MCQueryGen_fault.cfg", None), ("MCQueryGen_guard.cfg", None)] + _NONNULL("MCQueryGen_nonnull.cfg") + _IFFIRST("quick") + _ALL("quick", 300),
+                  "thorough": [("MCQueryGen_fault_t.cfg", None), ("MCQueryGen_guard_t.cfg", None)] + _NONNULL("MCQueryGen_nonnull_t.cfg") + _IFFIRST("thorough") + _ALL("thorough", 300)},
         events={"quick": 5, "thorough": 40},
         cap={"quick": 2800, "thorough": 19000},
         math=True,
